@@ -263,6 +263,7 @@ def _link_shard_locked(jd, job, params, out):
     defs = ["-DV_PARAM%d=%d" % (k, v) for k, v in params.items()]
     if job.get("eh"):
         defs.append("-DV_EH")
+    defs += ["-D" + d for d in job.get("rt_defines", [])]
     rts = [os.path.join(VERIF, "rt", "rt.c")] + [os.path.join(VERIF, "rt", f) for f in job.get("rt_extra", [])]
     r = run(["goto-cc", "-I", os.path.join(VERIF, "rt")] + defs + [os.path.join(jd, "job.gb")] + rts + ["-o", out + ".tmp"])
     if r.returncode != 0:
@@ -286,6 +287,7 @@ def cbmc_cmd(gb, entry, job, solver, extra=()):
         cmd += ["--unwindset", us]
     if job.get("checks") == "mem":
         cmd += ["--bounds-check", "--pointer-check"]
+    cmd += list(job.get("cbmc_flags", []))   # optional job key: further cbmc options (e.g. --max-field-sensitivity-array-size 512)
     cmd += SOLVER_FLAGS[solver]
     cmd += list(extra)
     return cmd
